@@ -791,14 +791,16 @@ fn int_to_float(c: &IntCase, ctx: &Ctx) -> Out {
 /// What `Repr::to_f32/to_f64` in rational/src/convert.rs computes, with a *correct* encode unless
 /// `bugs` says otherwise: quotient rounded to an integer of p or p+1 bits, then encoded (second
 /// rounding).  Returns (magnitude bits, error of the magnitude: None exact / Some(true) too large).
-fn rbig_two_step_model(x: &Q, stored: &(u64, u64), fmt: Fmt, bugs: EncBugs) -> (u64, Option<bool>) {
+fn rbig_two_step_model(x: &Q, stored: &(u64, u64), fmt: Fmt, bugs: EncBugs, coded_cutoff: bool) -> (u64, Option<bool>) {
     let a = x.abs();
     // bit lengths of the stored (Relaxed: possibly unreduced) numerator and denominator
     let shift = stored.0 as i64 - stored.1 as i64 - fmt.p;
     if shift >= fmt.emax {
         return (fmt.inf_bits(), Some(true));
     }
-    let cutoff = if fmt == F32 { -149 - 25 } else { -1074 - 53 };
+    // to_f32 flushes below shift -149-25 (right: the quotient has at most 25 bits); to_f64 is coded
+    // with -1074-53 although its quotient has up to 54 bits
+    let cutoff = if fmt == F32 { -149 - 25 } else if coded_cutoff { -1074 - 53 } else { -1074 - 54 };
     if shift < cutoff {
         return (0, Some(false));
     }
@@ -826,10 +828,16 @@ fn rat_wrong(out: &mut Out, ctx: &Ctx, what: &str, o: &Obs, x: &Q, stored: &(u64
     let value_ok = value_matches(o, x);
     let detail = || format!("{} wrong ({off} ulp): {}", if value_ok { "flag" } else { "value" }, describe(what, o, x));
     if sign_ok && off <= 1 && !o.fmt.is_nan(o.bits) {
-        let m = |b: EncBugs| {
-            let (mb, mf) = rbig_two_step_model(x, stored, o.fmt, b);
+        let mc = |b: EncBugs, coded: bool| {
+            let (mb, mf) = rbig_two_step_model(x, stored, o.fmt, b, coded);
             mb == got && mf.map(|up| up != neg) == o.flag
         };
+        let m = |b: EncBugs| mc(b, true);
+        if o.fmt == F64 && m(EncBugs::default()) && !mc(EncBugs::default(), false) {
+            // C06/rbig-to-f64-underflow-cutoff: `shift < -1074 - 53` returns 0 for a 54-bit quotient
+            // at shift -1128, i.e. for values up to 2^-1074 (everything above 2^-1075 must round up)
+            return ctx.known_or_fail(out, "C06/rbig-to-f64-underflow-cutoff", detail);
+        }
         if m(EncBugs::default()) {
             // C06/rbig-to-float-double-rounding: the quotient is rounded to an integer (p or p+1
             // bits, or more than the subnormal result keeps) before `encode` rounds again
@@ -1204,7 +1212,7 @@ fn fbig_wrong(out: &mut Out, ctx: &Ctx, site: &FbigSite, o: &ObsR, x: &Q) {
                 mb == gotmag && (large_path || o.flag == if mo != Ordering::Equal { Some(Rounding::NoOp) } else { f1 })
             };
             let id = if m(EncBugs::default()) {
-                if !*is_correct || large_path && !below_normal {
+                if !*is_correct || large_path && (!below_normal || value_ok) {
                     // C06/convert-base-large-exp-approximate: |exponent| > 38 goes through ln/exp at twice
                     // the precision: last bit and flag are those of an approximation
                     Some("C06/convert-base-large-exp-approximate")
@@ -1615,6 +1623,11 @@ fn boundary_int(sel: u16, seed: u64) -> BigInt {
     v.push(BigInt::from(r.next() as u16));
     v.push(BigInt::from(r.next() as u32));
     v.push(BigInt::from(words_to_big(&[r.next(), r.next(), r.next() >> r.below(64)])));
+    for _ in 0..40 {
+        let w = 1 + r.below(129);
+        let m = BigInt::from(rand_big(&mut r, w));
+        v.push(if r.next() & 1 == 0 { m } else { -m });
+    }
     pick(&v, sel)
 }
 
@@ -2220,6 +2233,9 @@ fn mantissa_set(fmt: Fmt, seed: u64) -> Vec<i64> {
         }
     }
     v.push(if fmt == F32 { i32::MAX as i64 } else { i64::MAX });
+    if fmt == F32 {
+        v.retain(|m| *m <= i32::MAX as i64);
+    }
     // random of every width, and near-tie shapes: p bits, round bit, one bit somewhere below
     for _ in 0..6 {
         let width = 1 + r.below(w as u64) as u32;
@@ -2602,14 +2618,17 @@ fn main() {
             let t0 = std::time::Instant::now();
             let s = f32_sweep(stride);
             let samples = vec![json!({"f64": false, "bits": 0x3f800000u64}), json!({"f64": false, "bits": 1u64})];
+            // Check::external materialises one synthetic digest per distinct case: cap what is passed
+            // there (the true count is in `extra`)
+            let true_nontrivial = s.nontrivial;
             ck.external(
                 "decode_f32_exhaustive",
                 s.evaluations,
-                s.nontrivial,
+                s.nontrivial.min(1 << 20),
                 s.labels,
                 samples,
                 s.violation,
-                Some(json!({"enumeration": "f32 bit patterns 0, stride, 2·stride, … < 2^32: decode exact, unreduced form, encode(decode(f)) == Exact(f)", "stride": stride, "exhaustive": stride == 1, "wall_s": t0.elapsed().as_secs_f64()})),
+                Some(json!({"enumeration": "f32 bit patterns 0, stride, 2·stride, … < 2^32: decode exact, unreduced form, encode(decode(f)) == Exact(f)", "stride": stride, "exhaustive": stride == 1, "distinct_nontrivial_true": true_nontrivial, "distinct_nontrivial_reported_cap": 1u64 << 20, "wall_s": t0.elapsed().as_secs_f64()})),
             );
         }
         if ck.wants("encode_all_exponents") {
@@ -2618,14 +2637,15 @@ fn main() {
             let known = ck.known().clone();
             let s = encode_sweep(&known, ck.tier, estride);
             let samples = vec![json!({"f64": false, "m": 3, "e": -151}), json!({"f64": true, "m": 22, "e": -1077})];
+            let true_nontrivial = s.nontrivial;
             ck.external(
                 "encode_all_exponents",
                 s.evaluations,
-                s.nontrivial,
+                s.nontrivial.min(1 << 20),
                 s.labels,
                 samples,
                 s.violation,
-                Some(json!({"enumeration": "encode(m, e) for every i16 exponent (stride below) x fixed mantissa boundary set x {f32, f64}", "exponent_stride": estride, "exhaustive": estride == 1, "known_hits": s.known, "wall_s": t0.elapsed().as_secs_f64()})),
+                Some(json!({"enumeration": "encode(m, e) for every i16 exponent (stride below) x fixed mantissa boundary set x {f32, f64}", "exponent_stride": estride, "exhaustive": estride == 1, "known_hits": s.known, "distinct_nontrivial_true": true_nontrivial, "distinct_nontrivial_reported_cap": 1u64 << 20, "wall_s": t0.elapsed().as_secs_f64()})),
             );
         }
     }
